@@ -1,7 +1,9 @@
 """C16: announce (spec/Announce.tla, MC_Announce.tla, Trace_Announce.tla; harness/cmd/ann).
 
-Stage 1: TLC exhaustive on MC_Announce (safety on four simulated networks x five option sets, liveness
-under weak fairness, vacuity guards: the escape announce.go has today must violate CloseLive).
+Stage 1: TLC exhaustive on MC_Announce (four simulated networks of 3-4 nodes, K = Alpha = 2, every option
+set an initial state, all reply orders, Close / StopTraversing at every point, consumer reading or giving up:
+safety invariants, StallLive / CloseLive under weak fairness, vacuity guards: the escape announce.go has
+today must violate CloseLive).
 Stage 2-4: harness/cmd/ann plays the network against the real Server.Announce at the PacketConn
 boundary; TLC (Trace_Announce) searches for an interleaving of Announce.tla's silent steps that explains
 every recorded line.  A rejected segment is re-validated with one clause of C16 switched off at a time;
@@ -274,7 +276,7 @@ def run(prop, tier, seed, replay=None):
     elif tier == "quick":
         jobs = [(str(seed * 100 + i), ["-seed", seed * 100 + i, "-exh", 1, "-maxexh", 150, "-n", 40]) for i in range(6)]
     else:
-        jobs = [(str(seed * 100 + i), ["-seed", seed * 100 + i, "-exh", 5, "-maxexh", 2000, "-n", 600]) for i in range(12)]
+        jobs = [(str(seed * 100 + i), ["-seed", seed * 100 + i, "-exh", 5, "-maxexh", 400, "-n", 2000]) for i in range(12)]
 
     def one(job):
         tag, args = job
